@@ -84,7 +84,7 @@ example : validateMime [105, 109, 97, 103, 101, 47, 112, 110, 103] = some [105, 
 
 /-! ## Part 2 — the epoch hint -/
 
-namespace Hint
+section Hint
 open MdkVerif.MediaEpoch
 
 /-- the facts of the source this part rests on (re-extracted on every run) -/
@@ -279,6 +279,30 @@ theorem C17_witness_late_announce : ¬ C17_full := by
 example : alookup 1 (run (step (run wClient [.touch, .advance 11, .touch]) (.announce wRef.hash)) []).secrets = some 10 ∧
     hintOf (run (step (run wClient [.touch, .advance 11, .touch]) (.announce wRef.hash)) []) wRef.hash = some 2 := by decide
 
+/-- the same statement for content that WAS announced before (same hash, e.g. the same file sent again in a
+    later epoch): `C17_partial` without its hypothesis `hnew` -/
+def C17_resend : Prop :=
+  ∀ (c : MClient) (s : Nat) (r : Reference) (p : Nat) (post : List MOp),
+    Inv c → c.cur = some s → r.version = Generated.defaultSchemeVersion → (∀ op ∈ post, PostOk c.epoch op) →
+    decryptFromDownload (run (step c (.announce r.hash)) post) (sealBlob s r p) r = .ok p
+
+/-- **C17_witness_same_content**: the content was announced in epoch 1 (secret 10) and is announced again in
+    epoch 2 (secret 11), processed in its own epoch; the hint lookup by content hash still finds the epoch-1
+    message, so after the next commit the second file is lost although secret 11 is stored under epoch 2.
+    Open known finding `hint-points-to-other-message`; corpus/C17/same_content.hist -/
+theorem C17_witness_same_content : ¬ C17_resend := by
+  intro h
+  have := h { cur := some 11, epoch := 2, secrets := [(2, 11), (1, 10)], tags := [(wRef.hash, 1)] } 11 wRef 99
+    [.advance 12, .touch]
+    ⟨fun n hn => by
+        have h1 : (2 : Nat) ≠ n := by intro e; subst e; exact absurd hn (by decide)
+        have h2 : (1 : Nat) ≠ n := by intro e; subst e; exact absurd hn (by decide)
+        simp [alookup, h1, h2],
+     fun s hs => by simp [alookup] at hs; simp [hs]⟩
+    rfl rfl (by intro op hop; simp at hop; rcases hop with rfl | rfl <;> simp [PostOk])
+  revert this
+  decide
+
 /-- non-vacuity of `C17_partial`: announcement first, then three commits and other traffic -/
 example : decryptFromDownload (run (step (run wClient [.touch]) (.announce wRef.hash))
     [.advance 11, .touch, .advance 12, .announce [1], .advance 13, .touch, .forget 2]) (sealBlob 10 wRef 99) wRef = .ok 99 := by decide
@@ -287,7 +311,7 @@ end Hint
 
 /-! ## Part 3 — group image -/
 
-namespace Image
+section Image
 open MdkVerif.MediaEpoch
 
 /-- v2 round trip: a blob sealed under HKDF(seed) opens with the seed and nonce published in the group data -/
